@@ -217,13 +217,24 @@ def enc_out(fs):
             'extrap_x': rat(ex) if _is_number(ex) else 'none', 'folded': bool(getattr(fs, 'folded', False))}
 
 
-def evaluate(qname, func, params, ns, pts, tid, slot, timescale=None, first=False, fine=False):
+def as_passed(params, ns, cont='tuple', num='py'):
+    """The objects handed to the model: container tuple | list | array, numbers as given (Python int / float) or numpy.float64."""
+    if num == 'np':
+        params = [np.float64(v) for v in params]
+    if cont == 'list':
+        return list(params), list(ns)
+    if cont == 'array':
+        return np.array(params, dtype=float), np.array(ns, dtype=int)
+    return tuple(params), tuple(ns)
+
+
+def evaluate(qname, func, params, ns, pts, tid, slot, timescale=None, first=False, fine=False, cont='tuple', num='py'):
     """Run one model evaluation under the proxies.  Returns the list of events begin ... end."""
     from dadi import Integration
     rec = Recorder(tid)
     names = list(func.__param_names__)
     rec.add('begin', model=qname, names=names, params=[rat(float(p)) for p in params], nnames=len(names), ns=[int(n) for n in ns],
-            pts=int(pts), slot=slot, first=bool(first), fine=bool(fine), timescale=rat(timescale) if timescale else 'default')
+            pts=int(pts), slot=slot, first=bool(first), fine=bool(fine), passed='%s/%s' % (cont, num), timescale=rat(timescale) if timescale else 'default')
     old_ts = Integration.timescale_factor
     if timescale:
         Integration.timescale_factor = timescale
@@ -231,7 +242,8 @@ def evaluate(qname, func, params, ns, pts, tid, slot, timescale=None, first=Fals
         with rec:
             try:
                 with np.errstate(all='ignore'):
-                    fs = func(tuple(params), tuple(ns), pts)
+                    pobj, nobj = as_passed(params, ns, cont, num)
+                    fs = func(pobj, nobj, pts)
                 out = enc_out(fs)
             except Exception as ex:
                 out = {'raised': type(ex).__name__, 'msg': str(ex)[:80]}
@@ -409,13 +421,19 @@ def realize(g, tid):
             ev += evaluate(g['model'], f, g['params'], g['ns'], g['pts'], tid, 'a' + lvl, timescale=ts, first=(lvl == '1'))
             ev += evaluate(g['model'], f, g['swapped'], ns2, g['pts'], tid, 'b' + lvl, timescale=ts)
         ev.append({'id': '%s-rel' % tid, 'tid': tid, 'op': 'relate', 'kind': 'swap', 'a1': 'a1', 'b1': 'b1', 'a2': 'a2', 'b2': 'b2', 'perm': perm})
+    elif kind == 'edge':
+        f = ms[g['model']]
+        for i, v in enumerate(g['evals']):
+            ev += evaluate(g['model'], f, v['params'], g['ns'], v.get('pts', g['pts']), tid, v['slot'], first=(i == 0), fine=v.get('fine', False), cont=v['cont'], num=v['num'])
+        for k, (a, b) in enumerate(g['alike']):
+            ev.append({'id': '%s-alike%d' % (tid, k), 'tid': tid, 'op': 'relate', 'kind': 'alike', 'a': a, 'b': b})
     else:
         raise common.MachineryError('C15: unknown group kind %r' % kind)
     return ev
 
 
 def site_of(g):
-    return g['model'] if g['kind'] in ('model', 'swap') else '%s>%s' % (g['A'], g['B'])
+    return g['model'] if g['kind'] in ('model', 'swap', 'edge') else '%s>%s' % (g['A'], g['B'])
 
 
 # --------------------------------------------------------------------------
@@ -477,9 +495,12 @@ def gen_groups(ctx, rng):
     # (3) label swaps at two time-step scales
     swaps = table['swaps']
     if ctx.quick:
-        k0 = ctx.seed % 2
-        chosen = [e for i, e in enumerate(swaps) if i % 2 == k0]
-        reps = 1
+        # every symmetric model once (its first relabelling); thorough runs every relabelling of the table
+        seen_m, chosen, reps = set(), [], 1
+        for e in swaps:
+            if e['model'] not in seen_m:
+                seen_m.add(e['model'])
+                chosen.append(e)
     else:
         chosen, reps = swaps, 3
     for e in chosen:
@@ -498,6 +519,90 @@ def gen_groups(ctx, rng):
             for o in range(1, P + 1):
                 axes[e['perm'][o - 1] - 1] = o
             groups.append({'kind': 'swap', 'model': e['model'], 'params': p, 'swapped': p2, 'perm': axes, 'ns': ns, 'pts': 14 if P == 2 else 10})
+    # (4) the end points and special values of the documented bounds, and other ways of handing over the same values
+    groups += edge_groups(ctx, rng)
+    return groups
+
+
+# the documented bounds: nu in [1e-2, 100], T in [0, 3], m in [0, 10], fractions in (0, 1)
+NU_LO, NU_HI, T_HI, M_HI, FR_LO, FR_HI = 1e-2, 100.0, 3.0, 10.0, 1e-3, 0.999
+
+
+def _with(names, base, **by_class):
+    """base with every parameter of a class replaced: value, or a function k -> value of the k-th parameter of that class."""
+    out, cnt = [], {}
+    for n, v in zip(names, base):
+        c = pclass(n)
+        c = 'frac' if c in ('s', 'f', 'F') else c
+        k = cnt.get(c, 0)
+        cnt[c] = k + 1
+        if c in by_class:
+            r = by_class[c]
+            v = r(k) if callable(r) else r
+        out.append(v)
+    return out
+
+
+def edge_groups(ctx, rng):
+    """Deterministic boundary records for every model:
+      v0 / va / vi   integer-valued nu, m, gamma as a tuple of Python floats / a numpy array of numpy.float64 / a list with Python
+                     ints (ns as tuple / array / list): same program, same spectrum
+      t0i / t0n      every duration exactly 0 as Python int (list) / numpy.float64 (array); 0.0 as Python float is a nesting point
+      lo / hi        nu = 1e-2, m = 0 (int)  /  nu = 100, m = 10
+      frlo / frhi    fractions (s, f, F) = 1e-3 / 0.999
+      eq             all sizes 1, all migration rates equal, all selection coefficients equal
+      t3             every duration at the upper bound 3 (two models per family in quick, every model in thorough)
+    thorough adds each end point on its own."""
+    ms = models()
+    groups = []
+    fam_t3, fam3 = {}, {}
+    for q, f in ms.items():
+        if is_mscore(f):
+            continue
+        names = list(f.__param_names__)
+        P = ndim_of(q, f)
+        base = draw_swap_params(rng, names)
+        cls = {('frac' if pclass(n) in ('s', 'f', 'F') else pclass(n)) for n in names}
+        # integer-valued sizes, rates and selection coefficients (the generic non-integer draws are those of the model groups)
+        v0 = _with(names, base, nu=lambda k: float(k + 2), m=lambda k: float(k + 1), gamma=lambda k: float(-1 - k))
+        vi = [int(v) if (pclass(n) in ('nu', 'm', 'gamma')) else v for n, v in zip(names, v0)]
+        evals = [{'slot': 'v0', 'params': v0, 'cont': 'tuple', 'num': 'py'}, {'slot': 'va', 'params': v0, 'cont': 'array', 'num': 'np'},
+                 {'slot': 'vi', 'params': vi, 'cont': 'list', 'num': 'py'}]
+        alike = [['v0', 'va'], ['v0', 'vi']]
+        if 'T' in cls:
+            # (T = 0.0 as a Python float is the zero-epoch point of the nesting pairs)
+            evals += [{'slot': 't0i', 'params': _with(names, base, T=0), 'cont': 'list', 'num': 'py'},
+                      {'slot': 't0n', 'params': _with(names, base, T=0.0), 'cont': 'array', 'num': 'np'}]
+            alike += [['t0i', 't0n']]
+        fam = q.split('.')[0]
+        # the output clauses (non-negativity) are judged on the fine grid: for every 1- and 2-population model, and in quick for two
+        # 3-population models per family (a fine 3-D evaluation costs up to a second, at T = 3 several seconds)
+        fam3[fam] = fam3.get(fam, 0) + (1 if P == 3 else 0)
+        fine_ok = (not ctx.quick) or P <= 2 or fam3[fam] <= 2
+
+        def ev(slot, params, fine):
+            d = {'slot': slot, 'params': params, 'cont': 'tuple', 'num': 'py'}
+            if fine:
+                d.update(fine=True, pts=PTS_FINE[P])
+            return d
+        evals.append(ev('lo', _with(names, base, nu=NU_LO, m=0), fine_ok))
+        evals.append(ev('hi', _with(names, base, nu=NU_HI, m=M_HI), fine_ok))
+        if 'frac' in cls:
+            # on their own: a fraction also scales sizes (s * nuPre), and the corner nu = 1e-2 with s = 1e-3 costs 1e6 time steps
+            evals.append(ev('frlo', _with(names, base, frac=FR_LO), not ctx.quick))
+            evals.append(ev('frhi', _with(names, base, frac=FR_HI), not ctx.quick))
+        evals.append(ev('eq', _with(names, base, nu=1.0, m=base[[pclass(n) for n in names].index('m')] if 'm' in cls else 0.0,
+                                    gamma=base[[pclass(n) for n in names].index('gamma')] if 'gamma' in cls else 0.0), False))
+        if 'T' in cls and (not ctx.quick or fam_t3.get(fam, 0) < 2):
+            fam_t3[fam] = fam_t3.get(fam, 0) + 1
+            evals.append(ev('t3', _with(names, base, T=T_HI, m=lambda k: 0.4 + 0.1 * k), (not ctx.quick) or P <= 2))
+        if not ctx.quick:
+            for slot, kw in (('nulo', {'nu': NU_LO}), ('nuhi', {'nu': NU_HI}), ('m0', {'m': 0.0}), ('mhi', {'m': M_HI}),
+                             ('t3i', {'T': 3, 'nu': 1, 'm': lambda k: 0.4 + 0.1 * k})):
+                if set(kw) & cls:
+                    evals.append(ev(slot, _with(names, base, **kw), False))
+        # equal sample sizes here (every other group draws distinct ones)
+        groups.append({'kind': 'edge', 'model': q, 'ns': [4] * P, 'pts': PTS[P], 'evals': evals, 'alike': alike})
     return groups
 
 
@@ -608,6 +713,30 @@ def mutations(groups, traces):
                 m = _retag(tr, 'MUTl-')
                 m[-1]['short_raised'] = False
                 out.append((m, 'RejectsTooFewParameters'))
+        elif g['kind'] == 'edge':
+            span = {}
+            for i, e in enumerate(tr):
+                if e['op'] in ('begin', 'end'):
+                    span.setdefault(e['slot'], []).append(i)
+            if 'va' in span and 'd' in tr[span['va'][1]]['out'] and once('alike-spectrum'):
+                m = _retag(tr, 'MUTp-')
+                d = m[span['va'][1]]['out']['d']
+                d[len(d) // 2] = _scale(d[len(d) // 2], 1000001, 1000000)
+                out.append((m, 'EquivalentArgumentsSameSpectrum'))
+            if 'vi' in span:
+                ints = [i for i in range(span['vi'][0], span['vi'][1]) if tr[i]['op'] == 'call' and tr[i]['fn'] in INTEGRATION_FUNCS
+                        and any(k.startswith('nu') and v['k'] == 'c' for k, v in tr[i]['args'].items())]
+                if ints and once('alike-program'):
+                    m = _retag(tr, 'MUTq-')
+                    a = m[ints[0]]['args']
+                    key = [k for k in sorted(a) if k.startswith('nu') and a[k]['k'] == 'c'][0]
+                    a[key]['v'] = [_scale(a[key]['v'][0], 3, 2)]
+                    out.append((m, 'EquivalentArgumentsSameProgram'))
+            if 't0i' in span and 'sh' in tr[span['t0i'][1]]['out'] and once('t0-neg'):
+                # an entry of the T = 0 (int) spectrum made non-finite
+                m = _retag(tr, 'MUTr-')
+                m[span['t0i'][1]]['out']['d'][0] = 'inf'
+                out.append((m, 'Finite'))
         elif g['kind'] == 'swap':
             if once('swap'):
                 m = _retag(tr, 'MUTm-')
@@ -643,6 +772,8 @@ def describe(g):
         return 'model %s params=%s ns=%s pts=%d' % (g['model'], g['params'], g['ns'], g['pts'])
     if g['kind'] == 'nest':
         return 'nesting %s at %s (params %s) vs %s (params %s), ns=%s pts=%d' % (g['A'], g.get('point'), g['pa'], g['B'], g['pb'], g['ns'], g['pts'])
+    if g['kind'] == 'edge':
+        return 'boundary / argument-type records of %s ns=%s pts=%d: %s' % (g['model'], g['ns'], g['pts'], '; '.join('%s=%s as %s/%s' % (v['slot'], v['params'], v['cont'], v['num']) for v in g['evals']))
     return 'label swap of %s params=%s vs %s, axes %s, ns=%s' % (g['model'], g['params'], g['swapped'], g['perm'], g['ns'])
 
 
